@@ -438,7 +438,7 @@ func checkBackoff(c *run.Ctx, ep *Episode, detail func() map[string]any) {
 			lastIdle, haveIdle = idle, true
 			checked++
 			switch {
-			case strings.Contains(lastErr, "connection refused"):
+			case strings.HasPrefix(lastErr, "[refused] "):
 				if idle != c10Max {
 					ep.Ctx.Violate("readbackoff-refusal-not-max", fmt.Sprintf("ReadBackoff after %q idles %v, want ReconnectWaitMax %v", lastErr, idle, c10Max), nil)
 				}
